@@ -845,6 +845,14 @@ def recording_loops_rule(m, rid):
                       "table and isinstance(result[0], Intrinsic_Type_Spec)"}
     r.instances += 1
     P_ = A.parents(a.node)
+    import re as _re
+    tv = "table"
+    for n in A.body_nodes(a.node):
+        if isinstance(n, ast.Assign) and len(n.targets) == 1 and isinstance(n.targets[0], ast.Name) and A.text(n.value) == "SYMBOL_TABLES.current_scope":
+            tv = n.targets[0].id
+
+    def norm_guard(t):
+        return _re.sub(r"\b%s\b" % _re.escape(tv), "table", t)
     loop0 = [n for n in A.body_nodes(a.node) if isinstance(n, ast.For)
              and any(isinstance(c, ast.Call) and A.text(c.func).endswith("add_data_symbol") for c in ast.walk(n))][0]
     extra = []
@@ -854,7 +862,7 @@ def recording_loops_rule(m, rid):
         if isinstance(p_, ast.If):
             if x in p_.orelse:
                 extra.append((p_, "not (%s)" % A.text(p_.test)))
-            elif A.text(p_.test) not in ALLOWED_GUARDS:
+            elif norm_guard(A.text(p_.test)) not in ALLOWED_GUARDS:
                 extra.append((p_, A.text(p_.test)))
         elif not isinstance(p_, (ast.FunctionDef,)):
             extra.append((p_, type(p_).__name__))
@@ -872,8 +880,16 @@ def recording_loops_rule(m, rid):
     if u is None:
         r.error("Use_Stmt.match vanished")
         return r
+    # the list the names are recorded in: what is appended to inside the loop over the ONLY list's children (whatever it is called)
+    olist = "only_list"
+    for n in A.body_nodes(u.node):
+        if isinstance(n, ast.For) and A.text(n.iter).endswith(".children"):
+            apps = [A.text(c.func.value) for c in ast.walk(n) if isinstance(c, ast.Call) and isinstance(c.func, ast.Attribute)
+                    and c.func.attr == "append" and isinstance(c.func.value, ast.Name)]
+            if apps:
+                olist = max(set(apps), key=apps.count)
     loops = [n for n in A.body_nodes(u.node) if isinstance(n, ast.For) and A.text(n.iter).endswith(".children")
-             and any(isinstance(c, ast.Call) and A.text(c.func) == "only_list.append" for c in ast.walk(n))]
+             and any(isinstance(c, ast.Call) and A.text(c.func) == olist + ".append" for c in ast.walk(n))]
     if len(loops) != 1:
         r.error("Use_Stmt.match: %d loops over the only-list fill only_list (anchor changed)" % len(loops))
         return r
@@ -912,7 +928,7 @@ def recording_loops_rule(m, rid):
                     body = stmts[0].body
                 elif t in ("%s.children[0]" % var, "%s.children[0] is not None" % var):
                     body = stmts[0].orelse
-        ends, bad = per_iteration(m, u, body, lambda c: A.text(c.func) == "only_list.append")
+        ends, bad = per_iteration(m, u, body, lambda c: A.text(c.func) == olist + ".append")
         r.ob(not bad and ends > 0, "Use_Stmt.match: %s entries: %d ends, all after only_list.append" % (cname, ends))
         if bad:
             r.fail("Use_Stmt.match|only-loop|%s" % cname, "Use_Stmt.match: a %s entry of the ONLY list can be passed over without being added to "
@@ -1022,8 +1038,16 @@ def definite_none_rule(m, rid, prefixes=("fparser.two", "fparser.common.readfort
             if id(n) in seen:
                 continue
             seen.add(id(n))
-            if (f.qualname, n.value.id) in NONE_DEREF_EXCEPTIONS:
-                seen_exc.add((f.qualname, n.value.id))
+            # the exception names a role, not a spelling: in that function, the local that is bound to None first and to an empty
+            # list later (`only_list` as the tree stands)
+            role = None
+            if any(k[0] == f.qualname for k in NONE_DEREF_EXCEPTIONS):
+                vals = [A.text(x.value) for x in A.body_nodes(f.node) if isinstance(x, ast.Assign) and len(x.targets) == 1
+                        and isinstance(x.targets[0], ast.Name) and x.targets[0].id == n.value.id]
+                if "None" in vals and "[]" in vals:
+                    role = next(k for k in NONE_DEREF_EXCEPTIONS if k[0] == f.qualname)
+            if role is not None:
+                seen_exc.add(role)
                 continue
             bad.append(n)
         r.ob(not bad, "%s: %s never dereferenced while None" % (f.qualname, sorted(cand)) if r.instances % 8 == 0 else None)
